@@ -352,7 +352,7 @@ func execVest(x *Exec, toks []string) string {
 			if ai == nil {
 				ai = app.AccountKeeper.NewAccountWithAddress(x.ctx, addr)
 			}
-			var pub cryptotypes.PubKey = secp256k1.GenPrivKey().PubKey()
+			var pub cryptotypes.PubKey = secp256k1.GenPrivKeyFromSecret([]byte("verif-key-for-" + toks[1])).PubKey()
 			if kp := keyedPubFor(toks[1]); kp != nil {
 				pub = kp
 			}
